@@ -55,9 +55,9 @@ transport.maxPoolCount = 2
 		os.Exit(h.ExitHarnessError)
 	}
 
-	nHist := run.N(150, 1500)
-	nHand := run.N(60, 600)
-	nIDs := run.N(5000, 100000)
+	nHist := run.N(150, 6000)
+	nHand := run.N(60, 2400)
+	nIDs := run.N(5000, 400000)
 
 	total := nHist + nHand
 	run.Parallel(total, 12, func(c *h.Case) {
